@@ -425,6 +425,21 @@ func c03Drive(args []string) int {
 		directed = append(directed, `{"parser_settings": {"version": "omni.2.1", "file_format_type": "xml"}, "transform_declarations": {"FINAL_OUTPUT": {"xpath": `+jstr(xp)+`, "object": {"x": {"xpath": "b"}}}}}`)
 	}
 	directed = append(directed, `{"parser_settings": {"version": "omni.2.1", "file_format_type": "xml"}, "transform_declarations": {"FINAL_OUTPUT": {"xpath": "/r/a", "object": {"x": {"xpath": ".[b * 2 = 2]/b"}}}}}`)
+	// XML documents that name a character set in their declaration: registered names, aliases, names nobody implements,
+	// names nobody knows - each is decoded or refused, with ASCII-only and with high bytes in the data
+	for _, label := range []string{"US-ASCII", "ascii", "ISO-8859-1", "latin1", "ISO-8859-2", "ISO-8859-5", "ISO-8859-7", "ISO-8859-8", "ISO-8859-8-I", "ISO-8859-15", "ISO-8859-16",
+		"ISO-2022-JP", "ISO-2022-KR", "ISO-2022-CN", "Shift_JIS", "EUC-JP", "EUC-KR", "GB2312", "GBK", "GB18030", "Big5", "Big5-HKSCS", "HZ-GB-2312", "KOI8-R", "KOI8-U",
+		"windows-1250", "windows-1251", "windows-1252", "cp1252", "windows-1258", "windows-874", "macintosh", "x-mac-cyrillic", "x-user-defined", "replacement",
+		"IBM437", "IBM850", "IBM852", "IBM866", "IBM037", "IBM500", "IBM1026", "IBM1047", "IBM01140", "EBCDIC-US", "EBCDIC-CP-US",
+		"UTF-7", "UNICODE-1-1-UTF-7", "UTF-8", "utf8", "UTF-16", "UTF-16BE", "UTF-16LE", "UTF-32", "UTF-32BE", "UTF-32LE", "ISO-10646-UCS-2", "ISO-10646-UCS-4", "csUnicode", "csUnicode11", "csUCS4",
+		"SCSU", "BOCU-1", "CESU-8", "TIS-620", "VISCII", "JIS_X0201", "JIS_X0212-1990", "hp-roman8", "DEC-MCS", "Adobe-Standard-Encoding", "ANSI_X3.4-1968", "NATS-SEFI", "INVARIANT",
+		"binary", "bogus", "", " ", "utf-8 ", "UTF-8\u0000", "x", strings.Repeat("U", 300)} {
+		for vi, body := range []string{`<root><rec id="a"><qty>1</qty><tag>plain</tag></rec><rec id="b"><qty>x</qty></rec></root>`,
+			"<root><rec id=\"a\"><qty>1</qty><tag>caf\xe9 \x80\x81\xff</tag></rec><rec id=\"b\"><qty>2</qty><tag>\xa4</tag></rec></root>"} {
+			in := `<?xml version="1.0" encoding="` + label + `"?>` + body
+			record("directed-input", "xml-declared-encoding", fmt.Sprintf("encoding=%q variant %d", label, vi), []byte(miniXML), []byte(in), runRobust([]byte(miniXML), []byte(in)))
+		}
+	}
 	// declarations nested deeper than any fixed-size structure of the readers (their stacks start with room for 10 levels)
 	for _, format := range []string{"fixedlength2", "csv2", "edi"} {
 		for _, depth := range []int{1, 2, 5, 9, 10, 11} {
